@@ -82,6 +82,9 @@ struct Cfg {
     /// full setter menu on the first handle (else Set/Update only)
     full_setters: bool,
     handle_ops: bool,
+    /// every poll of the run uses the same waker (all subscribers live in one
+    /// task) instead of a fresh one per poll
+    shared_waker: bool,
     prop: &'static str,
 }
 
@@ -403,7 +406,9 @@ impl<B: Backend> Harness for ObsH<B> {
 
 struct SubR<B: Backend> {
     sub: B::Sub,
-    last_pending: Option<Arc<Flag>>,
+    /// flag of the waker given to the last Pending poll and its wake count at
+    /// that moment (with a shared waker the flag is the task's)
+    last_pending: Option<(Arc<Flag>, usize)>,
 }
 
 struct World<B: Backend> {
@@ -414,6 +419,8 @@ struct World<B: Backend> {
     subs: Vec<Option<SubR<B>>>,
     /// handles obtained from an upgrade() the model did not expect (C19 runs)
     extra: Vec<B::Sh>,
+    /// the one task all subscribers are polled from (Cfg::shared_waker)
+    task: Option<(Arc<Flag>, Waker)>,
     m: Model,
     step: usize,
 }
@@ -439,7 +446,7 @@ impl<B: Backend> World<B> {
     }
 
     fn new(cfg: &Cfg, m: Model) -> Self {
-        let mut w = World { cfg: cfg.clone(), unique: None, shared: vec![], weaks: vec![], subs: vec![], extra: vec![], m, step: 0 };
+        let mut w = World { cfg: cfg.clone(), unique: None, shared: vec![], weaks: vec![], subs: vec![], extra: vec![], task: if cfg.shared_waker { Some(flag_waker()) } else { None }, m, step: 0 };
         if cfg.start_unique {
             let o = if cfg.use_default { B::ob_default() } else { B::ob_new(B::V::mk(cfg.init_code)) };
             for reset in &cfg.pre_subs {
@@ -470,8 +477,8 @@ impl<B: Backend> World<B> {
         let mut n = 0;
         for (i, s) in self.subs.iter().enumerate() {
             if let Some(s) = s {
-                if let Some(f) = &s.last_pending {
-                    if !f.woken() {
+                if let Some((f, base)) = &s.last_pending {
+                    if f.count() <= *base {
                         return Err(viol(
                             self.p("C02"),
                             self.step,
@@ -593,7 +600,11 @@ impl<B: Backend> World<B> {
                     None => 0,
                 };
                 let exp = self.m.poll(si);
-                let (flag, w) = flag_waker();
+                let (flag, w) = match &self.task {
+                    Some((f, w)) => (f.clone(), w.clone()),
+                    None => flag_waker(),
+                };
+                let base = flag.count();
                 let mut cx = Context::from_waker(&w);
                 let s = self.subs[si].as_mut().unwrap();
                 let got = match op {
@@ -617,7 +628,7 @@ impl<B: Backend> World<B> {
                 let s = self.subs[si].as_mut().unwrap();
                 match got {
                     Poll::Pending => {
-                        s.last_pending = Some(flag);
+                        s.last_pending = Some((flag, base));
                         st.mark("pending_polls");
                     }
                     Poll::Ready(Some(_)) => {
